@@ -448,6 +448,7 @@ func genFile(c *cyclers, id int, k int) FileSpec {
 }
 
 func gen(g *fw.GenCtx) {
+	genExtra(g)
 	c := newCyclers(g.Rand)
 	nFiles := g.Pick(40, 1000)
 	per := g.Pick(2, 8)
@@ -1558,6 +1559,12 @@ func (c *checker) run() {
 
 func run(cs fw.Case) fw.Outcome {
 	var oc fw.Outcome
+	if cs.Kind == "extra" {
+		var xc xcase
+		json.Unmarshal(cs.Data, &xc)
+		runExtra(&oc, xc)
+		return oc
+	}
 	var b Batch
 	if err := json.Unmarshal(cs.Data, &b); err != nil {
 		oc.Inconc = append(oc.Inconc, "bad case: "+err.Error())
